@@ -263,6 +263,155 @@ def compute(repo):
     return mod, res
 
 
+class _CannotEval(Exception):
+    pass
+
+
+def _protects(m, f, text):
+    """does protection method f change `text` (checker-side evaluation of the method's pure
+    string predicate on a literal; supports str.rfind/find/isalpha/endswith/startswith, slices,
+    comparisons, and/or/not, and match/search/fullmatch of a compiled literal pattern)"""
+    param = f.args.args[1].arg
+    env = {param: text}
+
+    def rx_of(node):
+        # self.<name> / <name> bound to re.compile(<literal>) at class or module level
+        nm = node.attr if isinstance(node, ast.Attribute) else (node.id if isinstance(node, ast.Name) else None)
+        if nm is None:
+            raise _CannotEval('pattern object %s' % unparse(node))
+        for st in ast.walk(m.tree):
+            if isinstance(st, ast.Assign) and any(unparse(t).split('.')[-1] == nm for t in st.targets) and \
+                    isinstance(st.value, ast.Call) and call_name(st.value) == 'compile' and st.value.args \
+                    and isinstance(st.value.args[0], ast.Constant):
+                flags = 0
+                if len(st.value.args) > 1 or st.value.keywords:
+                    ft = unparse(st.value.args[1] if len(st.value.args) > 1 else st.value.keywords[0].value)
+                    for part in ft.split('|'):
+                        part = part.strip().split('.')[-1]
+                        if not hasattr(re, part):
+                            raise _CannotEval('flag ' + part)
+                        flags |= getattr(re, part)
+                return re.compile(st.value.args[0].value, flags)
+        raise _CannotEval('pattern %s not a compiled literal' % nm)
+
+    def ev(e):
+        if isinstance(e, ast.Constant):
+            return e.value
+        if isinstance(e, ast.Name):
+            if e.id in env:
+                return env[e.id]
+            raise _CannotEval('name ' + e.id)
+        if isinstance(e, ast.BoolOp):
+            v = None
+            for x in e.values:
+                v = ev(x)
+                if isinstance(e.op, ast.And) and not v:
+                    return v
+                if isinstance(e.op, ast.Or) and v:
+                    return v
+            return v
+        if isinstance(e, ast.UnaryOp) and isinstance(e.op, ast.Not):
+            return not ev(e.operand)
+        if isinstance(e, ast.UnaryOp) and isinstance(e.op, ast.USub):
+            return -ev(e.operand)
+        if isinstance(e, ast.BinOp) and isinstance(e.op, (ast.Add, ast.Sub)):
+            l, r = ev(e.left), ev(e.right)
+            return l + r if isinstance(e.op, ast.Add) else l - r
+        if isinstance(e, ast.Compare):
+            left = ev(e.left)
+            for op, rn in zip(e.ops, e.comparators):
+                right = ev(rn)
+                import operator
+                fn = {ast.Lt: operator.lt, ast.LtE: operator.le, ast.Gt: operator.gt, ast.GtE: operator.ge,
+                      ast.Eq: operator.eq, ast.NotEq: operator.ne, ast.Is: operator.is_,
+                      ast.IsNot: operator.is_not, ast.In: lambda a_, b_: a_ in b_,
+                      ast.NotIn: lambda a_, b_: a_ not in b_}.get(type(op))
+                if fn is None:
+                    raise _CannotEval('operator')
+                if not fn(left, right):
+                    return False
+                left = right
+            return True
+        if isinstance(e, ast.Subscript):
+            v = ev(e.value)
+            if isinstance(e.slice, ast.Slice):
+                lo = ev(e.slice.lower) if e.slice.lower is not None else None
+                hi = ev(e.slice.upper) if e.slice.upper is not None else None
+                if e.slice.step is not None:
+                    raise _CannotEval('slice step')
+                return v[lo:hi]
+            try:
+                return v[ev(e.slice)]
+            except IndexError:
+                raise _CannotEval('index out of range on probe %r' % text)
+        if isinstance(e, ast.Call):
+            cn = call_name(e)
+            if isinstance(e.func, ast.Name) and cn == 'len' and len(e.args) == 1:
+                return len(ev(e.args[0]))
+            if isinstance(e.func, ast.Attribute):
+                if cn in ('match', 'search', 'fullmatch') and not (
+                        isinstance(e.func.value, ast.Name) and e.func.value.id == 're'):
+                    rx = rx_of(e.func.value)
+                    args = [ev(x) for x in e.args]
+                    return getattr(rx, cn)(*args)
+                if isinstance(e.func.value, ast.Name) and e.func.value.id == 're' and \
+                        cn in ('match', 'search', 'fullmatch') and e.args and isinstance(e.args[0], ast.Constant):
+                    return getattr(re, cn)(e.args[0].value, *[ev(x) for x in e.args[1:]])
+                recv = ev(e.func.value)
+                if isinstance(recv, str) and cn in ('rfind', 'find', 'isalpha', 'endswith', 'startswith',
+                                                     'isalnum', 'rstrip', 'lstrip', 'strip', 'index',
+                                                     'rindex', 'isascii', 'islower', 'isupper'):
+                    try:
+                        return getattr(recv, cn)(*[ev(x) for x in e.args])
+                    except ValueError:
+                        raise _CannotEval('str.%s raised on probe %r' % (cn, text))
+                if cn in ('group', 'start', 'end') and recv is not None and hasattr(recv, cn):
+                    return getattr(recv, cn)(*[ev(x) for x in e.args])
+            if isinstance(e.func, ast.Name) and cn in m.functions and not e.keywords:
+                # module-level helper: evaluate its body on the argument values
+                h = m.functions[cn]
+                hp = [x.arg for x in h.args.args]
+                if len(hp) != len(e.args):
+                    raise _CannotEval('helper arity')
+                saved = dict(env)
+                vals = [ev(x) for x in e.args]
+                env.clear()
+                env.update(zip(hp, vals))
+                try:
+                    r = run_block(h.body, value=True)
+                finally:
+                    env.clear()
+                    env.update(saved)
+                if r is None:
+                    raise _CannotEval('helper without return')
+                return r[1]
+            raise _CannotEval('call ' + short(e, 40))
+        raise _CannotEval('expression ' + type(e).__name__)
+
+    def run_block(stmts, value=False):
+        for st in stmts:
+            if isinstance(st, ast.Expr):
+                continue
+            if isinstance(st, ast.Assign) and len(st.targets) == 1 and isinstance(st.targets[0], ast.Name):
+                env[st.targets[0].id] = ev(st.value)
+                continue
+            if isinstance(st, ast.If):
+                r = run_block(st.body if ev(st.test) else st.orelse, value)
+                if r is not None:
+                    return r
+                continue
+            if isinstance(st, ast.Return) and value:
+                return ('value', ev(st.value) if st.value is not None else None)
+            if isinstance(st, ast.Return):
+                return ('same',) if (isinstance(st.value, ast.Name) and st.value.id == param) else ('changed',)
+            raise _CannotEval('statement ' + type(st).__name__)
+        return None
+    r = run_block(f.body)
+    if r is None:
+        raise _CannotEval('no return reached')
+    return r == ('changed',)
+
+
 def run(ctx):
     repo = ctx.repo
     ctx.rule('R08a', 'table inverse: the abstract decode (default walker and latex2text tables) of the '
@@ -349,6 +498,33 @@ def run(ctx):
                'the dangling-control-word test uses a regular expression whose %s: control words of the '
                'other case (\\L, \\O, \\AE, ...) get no protection' % why,
                construct='dangling-control-word test: letter case')
+
+    # the test itself, evaluated by the checker's own interpreter on probe replacement texts
+    probes = ['\\textemdash', 'a\\b', '\\"\\cyra', '\\`\\CYRE', 'abc', '\\%', '{\\a}', '\\a{}',
+              '\\a ', '\\ABC', 'x\\abc', '', '\\', '\\1', '\\c{c}', '\\cyrchar\\CYROMEGA',
+              '\\ensuremath{\\alpha}', '\\textbackslash', "\\'e", '\\i']
+    for f in (a, b):
+        bad, unk = [], None
+        for pr in probes:
+            want = re.search(r'\\[A-Za-z]+$', pr) is not None
+            try:
+                got = _protects(m, f, pr)
+            except _CannotEval as e:
+                unk = str(e)
+                break
+            if got != want:
+                bad.append('%r is %s' % (pr, 'protected' if got else 'left unprotected'))
+        cons = '%s: dangling-control-word test on probe texts' % f.name
+        if unk is not None:
+            ctx.unknown('R08b', m, f, 'test not evaluable: %s' % unk, construct=cons)
+        else:
+            ctx.decide('R08b', not bad, m, f,
+                       'protects exactly the %d probe texts that end with a control word' % sum(
+                           1 for pr in probes if re.search(r'\\[A-Za-z]+$', pr)),
+                       '%s misjudges replacement texts: %s -- a replacement ending with a control word '
+                       'that is left unprotected fuses with a following letter / swallows a following '
+                       'space, so the character does not survive the round trip'
+                       % (f.name, '; '.join(bad[:4])), construct=cons)
 
     # ------------------------------------------------------------ R08c
     lt = tables.L2TTable(repo)
